@@ -137,7 +137,7 @@ def make(kind, R):
         from okdmr.dmrlib.hytera.pdu.radio_ip import RadioIP
         from okdmr.dmrlib.hytera.pdu.radio_registration_service import RadioRegistrationService, RRSTypes
 
-        common = dict(source=edge(8), destination=edge(8), packet_number=edge(16), block_number=edge(8))
+        common = dict(source=edge(8), destination=edge(8), packet_number=edge(16), block_number=edge(8), version=R.choice([0, 1, 2, 3, 4, 4, 4]))
         op = {"hrnp-connect": HRNPOpcodes.CONNECT, "hrnp-accept": HRNPOpcodes.ACCEPT, "hrnp-close": HRNPOpcodes.CLOSE, "hrnp-dataack": HRNPOpcodes.DATA_ACK}.get(kind, HRNPOpcodes.DATA)
         data = None
         if kind == "hrnp-rrs":
@@ -188,6 +188,13 @@ def reserialise(kind, o):
         b.frombytes(o.as_bytes())
         return b
     return o.as_bits()
+
+
+def _flipped(wire, p):
+    c = wire.copy()
+    for i in p:
+        c.invert(i)
+    return c
 
 
 def std_patterns(kind, n, R, tier, full=None):
@@ -258,9 +265,9 @@ class C04(Check):
 
     def generate(self, arm, index, streams, tier):
         if arm == "slot":
-            return {"task": "slot", "range": [index << 12, (index + 1) << 12]}
+            return {"task": "slot", "range": [index << 12, (index + 1) << 12], "order_seed": streams["sched"].getrandbits(32)}
         if arm == "emb":
-            return {"task": "emb", "range": [index << 12, (index + 1) << 12]}
+            return {"task": "emb", "range": [index << 12, (index + 1) << 12], "order_seed": streams["sched"].getrandbits(32)}
         w = streams["work"]
         if arm == "full-w3":
             kind = (DH + ["pi", "slc-null", "slc-act"])[index % 8]
@@ -272,6 +279,11 @@ class C04(Check):
         return {k: v for k, v in case.items() if k in ("task", "kind", "wire", "range", "full", "ops")}
 
     def simplify(self, case):
+        io = case.get("inplace_ops") or []
+        if len(io) > 1:
+            yield dict(case, inplace_ops=io[-1:])
+            for k in range(len(io) - 1):
+                yield dict(case, inplace_ops=io[:k] + io[k + 1:])
         ops = case.get("ops") or []
         if len(ops) == 1 and len(ops[0]) > 1:
             p = ops[0]
@@ -317,7 +329,9 @@ class C04(Check):
                 n, k, ind, kind = 16, 7, "emb_parity_ok", "EMB"
             cws = {ba2int(bitarray(FEC.generate(int2ba(m, k)).tolist())) for m in range(1 << k)}
             words = [tuple(o) for o in case["ops"]] if "ops" in case else None
-            rng = [int(o, 2) for o in case["ops"]] if "ops" in case else range(case["range"][0], min(case["range"][1], 1 << n))
+            rng = [int(o, 2) for o in case["ops"]] if "ops" in case else list(range(case["range"][0], min(case["range"][1], 1 << n)))
+            if "ops" not in case and case.get("order_seed") is not None:
+                random.Random(case["order_seed"]).shuffle(rng)  # complete block, seeded visiting order
             acc = 0
             for wpos, wi in enumerate(rng):
                 wd = int2ba(wi, n)
@@ -338,7 +352,7 @@ class C04(Check):
                     # block up to the word is kept (an indicator may depend on words parsed earlier) and minimised by ddmin
                     hist = [wd.to01()]
                     if known.match(kf, "C04", v0) is None and "range" in case:
-                        hist = [int2ba(x, n).to01() for x in range(case["range"][0], wi + 1)]
+                        hist = [int2ba(x, n).to01() for x in rng[: wpos + 1]]
                     fail("C04.small-word-membership", f"{kind}:{'accepts-non-codeword' if got else 'rejects-codeword'}",
                          f"{kind} received word {wd.to01()}: {ind}={got}, word is {'a' if member else 'not a'} codeword of the FEC",
                          {"task": task, "ops": hist}, sig)
@@ -412,6 +426,41 @@ class C04(Check):
                  f"{kind}: wire {case['wire']} with bits {list(p)} inverted is accepted (indicator True) with {'equal' if same_fields else 'different'} field values"
                  f"{' [received check field all-zero]' if check_zero else ''}{' [accepted PDU re-serialises differently from the received bits]' if reser else ''}",
                  dict(sub0, ops=[list(p)], pclass=cls), {"kind": kind, "check_zero": check_zero, "reser_differs": reser})
+        # in-place pass: a receiver that re-uses ONE buffer object (corrupting and restoring it in place) must see, for every pattern,
+        # exactly the outcome the copy-based pass above recorded for the same received bits
+        if "inplace_ops" in case:
+            sample = [("inplace", tuple(p)) for p in case["inplace_ops"]]
+        else:
+            sample = [(cls, p) for cls, p in pats if cls == "w1"] + [(cls, p) for cls, p in pats if cls == "burst"][:: max(1, len(pats) // 300)]
+            if "ops" in case:
+                sample = []  # replay of a copy-based violation: no in-place pass
+        if sample:
+            def outcome(bits):
+                try:
+                    q, ind = parse(kind, bits)
+                except Exception as e:
+                    return ("raised",)
+                return ("ok", bool(ind), core.dumps(canon(q)))
+
+            wants = [outcome(_flipped(wire, p)) for _, p in sample]  # copy-based truth first, then a pure in-place history
+            buf = wire.copy()
+            outcome(buf)  # the receiver's first use of its buffer: the clean word
+            for si, (cls, p) in enumerate(sample):
+                want = wants[si]
+                for i in p:
+                    buf.invert(i)
+                got = outcome(buf)
+                for i in p:
+                    buf.invert(i)
+                res["evals"] += 1
+                if got != want:
+                    fail("C04.indicator-depends-on-buffer-history", kind,
+                         f"{kind}: wire {case['wire']} with bits {list(p)} inverted IN PLACE in a re-used buffer parses as {got[:2]}, a fresh copy of the same bits parses as {want[:2]}",
+                         # the whole history of this run is the case: copy-based patterns (ops) then the in-place patterns; ddmin + simplify() shrink both
+                         dict(sub0, ops=[list(pp) for _, pp in pats], pclass="std", inplace_ops=[list(pp) for _, pp in sample[: si + 1]]), {"kind": kind, "inplace": True})
+                    break
+            res["cov"].add(f"{kind}|inplace-pass")
+            res.fault("inplace_buffer_reuse", len(sample))
         for k2 in ("w1", "burst", "w2", "w3", "replay"):
             cnt = sum(1 for cls, _ in pats if cls == k2)
             if cnt:
